@@ -16,8 +16,35 @@ span_eq = Impl(uc.FS, "PartialEq for Span", slot="diagn", props=["C07"],
 
 KEY = "(src@, span.file_handle, span.start())"
 WF_ALL = "forall|i: int| 0 <= i < res@.len() ==> match_wf(defs, (#[trigger] res@[i]).0)"
-with_map = Fn(FM, "match_with_ruledef_map", slot="asm", mode="stub", ret="res", key="matcher::match_with_ruledef_map",
-    ensures=[C("candidates", "first_components(res@) == map_candidates(defs, walker.key())"), C("wf", WF_ALL)])
+FMAP = "src/asm/defs/ruledef_map.rs"
+parse_prefix = Fn(FMAP, "parse_prefix", impl="RuledefMap", slot="asm", mode="stub", ret="res", key="RuledefMap::parse_prefix",
+    ensures=[C("the_prefix_of_the_text", "res == prefix_of(walker.key())")])
+query_prefixed = Fn(FMAP, "query_prefixed", impl="RuledefMap", slot="asm", mode="stub", ret="res", key="RuledefMap::query_prefixed",
+    ensures=[C("the_five_groups", "forall|g: int| 0 <= g < 5 ==> (#[trigger] res@[g])@ == map_group(self, prefix, g)")])
+get_rule = Fn(FR, "get_rule", impl="Ruledef", slot="asm", mode="stub", ret="res", key="Ruledef::get_rule",
+    requires=[C("in_range", "rule_ref.0 < self.rules@.len()")], ensures=[C("the_rule", "*res == self.rules@[rule_ref.0 as int]")])
+begin_match = Fn(FM, "begin_match_with_rule", slot="asm", mode="stub", ret="res", key="matcher::begin_match_with_rule",
+    ensures=[C("candidates", "first_components(res@) == rule_candidates(defs, ruledef_ref.0 as int, rule_ref.0 as int, walker.key())"), C("wf", WF_ALL)])
+ENTRY_OK_UNUSED = "forall|g: int, k: int| 0 <= g < 5 && 0 <= k < map_group(&defs.ruledef_map, prefix_of(walker.key()), g).len() ==> ({ let e = #[trigger] map_group(&defs.ruledef_map, prefix_of(walker.key()), g)[k]; e.ruledef_ref.0 < defs.ruledefs.defs@.len() && defs.ruledefs.defs@[e.ruledef_ref.0 as int] is Some && e.rule_ref.0 < (defs.ruledefs.defs@[e.ruledef_ref.0 as int]->0).rules@.len() })"
+with_map = Fn(FM, "match_with_ruledef_map", slot="asm", ret="res", key="matcher::match_with_ruledef_map", props=["C08", "C07", "C03"],
+    ensures=[C("candidates", "first_components(res@) == map_candidates(defs, walker.key())", ["C08", "C07"]), C("wf", WF_ALL, ["C03"])],
+    for_to_while=[1],
+    rewrites=[Rewrite("matches.extend(rule_matches);", "verif_extend(&mut matches, rule_matches);", rule="R16", why="`Vec::extend(Vec)` -> prelude wrapper (assumed: appended in order)")],
+    inserts=[
+        Insert("let entries = defs.ruledef_map.query_prefixed(prefix);", "\n    proof { axiom_index_holds_existing_rules(defs, walker.key()); }", where="after"),
+        Insert("verif_extend(&mut matches, rule_matches);", "let ghost verif_rm = rule_matches@;\n        ", where="before"),
+        Insert("verif_extend(&mut matches, rule_matches);", "\n        proof { lemma_firsts_append(verif_wm0, verif_rm); }", where="after"),
+    ],
+    loops={
+        1: Loop(invariant=[
+            C("the_groups", "verif_vec_1@.len() == 5 && (forall|g: int| 0 <= g < 5 ==> (#[trigger] verif_vec_1@[g])@ == map_group(&defs.ruledef_map, prefix_of(walker.key()), g)) && index_entries_exist(defs, walker.key())"),
+            C("cursor", "verif_group_1 <= 5 && (verif_group_1 < 5 ==> verif_next_1 <= map_group(&defs.ruledef_map, prefix_of(walker.key()), verif_group_1 as int).len()) && (verif_group_1 == 5 ==> verif_next_1 == 0)"),
+            C("candidates_so_far", "first_components(matches@) == groups_candidates(defs, walker.key(), verif_group_1 as int) + group_candidates(defs, walker.key(), map_group(&defs.ruledef_map, prefix_of(walker.key()), verif_group_1 as int), verif_next_1 as int)"),
+            C("wf", "forall|i: int| 0 <= i < matches@.len() ==> match_wf(defs, (#[trigger] matches@[i]).0)"),
+        ], decreases="(5 - verif_group_1) as int, (if verif_group_1 < 5 { map_group(&defs.ruledef_map, prefix_of(walker.key()), verif_group_1 as int).len() - verif_next_1 } else { 0 }) as int",
+           body_start=" let ghost verif_wm0 = matches@;"),
+    },
+)
 with_ruledef = Fn(FM, "match_with_ruledef", slot="asm", mode="stub", ret="res", key="matcher::match_with_ruledef",
     ensures=[C("walker_kept", "final(walker).key() == old(walker).key()"),
              C("candidates", "needs_consume_all_tokens ==> first_components(res@) == ruledef_candidates(defs, ruledef_ref.0 as int, old(walker).key())"), C("wf", WF_ALL)])
@@ -136,7 +163,7 @@ UNIT = Unit(
         Type(FR, "struct", "Ruledef", slot="asm"), Type("src/asm/defs/mod.rs", "struct", "DefList", slot="asm"),
         Type(FA, "struct", "AssemblyOptions", slot="asm"), Type(FA, "struct", "DriverSymbolDef", slot="asm"),
     ] + [f for f in deflist_fns("verify", "asm") if f.name == "get"] + [
-        with_map, with_ruledef, match_is_same, arg_is_same, exact_count, match_instr,
+        Type(FMAP, "const", "MAX_PREFIX_SIZE", slot="asm"), Type(FMAP, "struct", "RuledefMapEntry", slot="asm", derive="Clone, Copy"), parse_prefix, query_prefixed, get_rule, begin_match, with_map, with_ruledef, match_is_same, arg_is_same, exact_count, match_instr,
     ],
     serves=["C07", "C01", "C03"],
     description="asm::matcher::match_instr: duplicate removal (is_same) and the literal-part precedence among the candidates of an instruction line",
